@@ -186,7 +186,10 @@ class Sim:
             self.model.add_link(op[1], op[2], op[3])
         elif k == "add_links":
             self.net.add_links(it([(self.obj(a), self.obj(b), self.obj(c)) for a, b, c in op[1]]))
-            for a, b, c in op[1]:
+            triples = [tuple(tr) for tr in op[1]]
+            if form == "$keys":
+                triples = list(dict.fromkeys(triples))  # a dict holds each key once, at its first position
+            for a, b, c in triples:
                 self.model.add_link(a, b, c)
         elif k == "add_origin":
             self.net.add_origin(self.obj(op[1]), self.obj(op[2]))
